@@ -41,6 +41,8 @@ type Frame struct {
 	loops      map[int]int
 	panicDefer bool // deferred call executed during panic unwinding
 	onDone     func(Value)
+	retVal     Value // when hasRetVal: the value handed to the caller instead of the frame's own result
+	hasRetVal  bool
 	onlyCall   *deferred // pseudo frame of a goroutine that runs one intrinsic
 }
 
@@ -60,6 +62,17 @@ func (e *Exec) pushCall(t *Thread, clo *Closure, args []Value, call ssa.Value, r
 		e.unsupported("call of external function %s", fnName(fn))
 	}
 	if len(t.Frames) > 400 {
+		// the same function 100 times on the stack: unbounded recursion, which the Go runtime ends with
+		// a fatal (unrecoverable) stack overflow
+		same := 0
+		for _, fr := range t.Frames {
+			if fr.Fn == fn {
+				same++
+			}
+		}
+		if same >= 100 {
+			panic(pathEnd{kind: "panic", detail: "fatal error: stack overflow (unbounded recursion of " + fnName(fn) + ")", site: e.callerPos(t)})
+		}
 		e.unsupported("call depth exceeded in %s", fnName(fn))
 	}
 	e.Stats.Funcs[fnName(fn)] = true
@@ -511,6 +524,9 @@ func (e *Exec) doReturn(t *Thread, rv Value) stepRes {
 	t.Frames = t.Frames[:len(t.Frames)-1]
 	if f.onDone != nil {
 		f.onDone(rv)
+	}
+	if f.hasRetVal {
+		rv = f.retVal
 	}
 	switch f.Ret {
 	case retNormal:
